@@ -1,6 +1,7 @@
-(* Faithful model of the error position of src/pest_bridge.rs:
-     convert_pest_error (93-151), compute_error_range (159-191), scan_token_end (195-222),
-     scan_token_start (225-253).
+(* Faithful model of the error position of src/pest_bridge.rs (as of commit 2fbd55d, which keeps the range on
+   UTF-8 character boundaries):
+     convert_pest_error (93-151), compute_error_range (159-191), scan_token_end (195-226),
+     scan_token_start (229-263).
    Input: the UTF-8 bytes of the document and pest's failure offset `index` (pest::error::Error::location,
    always InputLocation::Pos for a parsing error).  The loops over `bytes[pos]` become list functions:
    scanning forward from p = take_while on input[p..]; scanning backward from p = take_while on the reversed
@@ -26,9 +27,9 @@ Definition skipped (b : N) : bool := is_ascii_ws b || (b =? 59).
 Definition scan_token_end (bs : list N) (start : N) : N :=
   match skipnN start bs with
   | [] => start                                           (* pos >= bytes.len() *)
-  | (first :: _) as rest =>
+  | (first :: t) as rest =>
     if tok_first first then start + lenN (take_while tok_char rest)
-    else start + 1                                        (* single character: ONE BYTE *)
+    else start + 1 + lenN (take_while is_cont t)          (* one character: the byte and its continuation bytes *)
   end.
 
 (* scan_token_start(bytes, pos); bytes[pos] must exist (Rust would panic otherwise) *)
@@ -37,6 +38,10 @@ Definition scan_token_start (bs : list N) (pos : N) : N :=
   | [] => pos
   | ch :: _ =>
     if tok_char ch then pos - lenN (take_while tok_char (rev (firstnN pos bs)))
+    else if is_cont ch then
+      (* while start > 0 && is_cont(bytes[start]) { start -= 1 } *)
+      let k := lenN (take_while is_cont (rev (firstnN pos bs))) in
+      if k <? pos then pos - (k + 1) else 0
     else pos
   end.
 
@@ -71,97 +76,22 @@ Definition convert_pest_error (bs : list N) (index : N) : position :=
             else pest_line_col bs index in
   mkPos (fst lc) (snd lc) r (fst r).
 
-(* ---------- classifiers of the known findings (DESIGN.md 8) ---------- *)
-(* the scanned token is a single non-ASCII lead byte and the range ends inside that character *)
-Definition kf_range_end_in_char (bs : list N) (index : N) : bool :=
-  let r := compute_error_range index bs in
-  (fst r =? index) &&
-  match skipnN index bs with
-  | b :: b2 :: _ => (128 <=? b) && negb (is_cont b) && is_cont b2 && (snd r =? index + 1)
-  | _ => false
-  end.
-(* the backward scan stopped on the last byte of a multi-byte character: range = (pos, pos+1) starts inside it *)
-Definition kf_range_start_in_char (bs : list N) (index : N) : bool :=
-  let r := compute_error_range index bs in
-  (fst r <? index) && (snd r =? fst r + 1) &&
-  match skipnN (fst r) bs with
-  | b :: _ => is_cont b
-  | [] => false
-  end.
-
-(* E: canonical rendering "index line column a b|<kf_end><kf_start>" *)
-Definition flagc (b : bool) : N := if b then 49 else 48.
+(* E: canonical rendering "index line column a b" *)
 Definition err_render (bs : list N) (index : N) : list N :=
-  render_position (convert_pest_error bs index)
-  ++ [124; flagc (kf_range_end_in_char bs index); flagc (kf_range_start_in_char bs index)].
-
-(* ---------- the repaired functions (design.d/C15-fix-error-range-char-boundary.patch) ----------
-   scan_token_end steps over the whole UTF-8 sequence of a 'single character'; scan_token_start backs up to the
-   first byte of the character `pos` lies in.  Used by the oracle as the deviation switch of the two findings:
-   once the witnesses no longer fail, the implementation is compared with this model instead. *)
-Definition scan_token_end_fixed (bs : list N) (start : N) : N :=
-  match skipnN start bs with
-  | [] => start
-  | (first :: t) as rest =>
-    if tok_first first then start + lenN (take_while tok_char rest)
-    else start + 1 + lenN (take_while is_cont t)
-  end.
-
-Definition scan_token_start_fixed (bs : list N) (pos : N) : N :=
-  match skipnN pos bs with
-  | [] => pos
-  | ch :: _ =>
-    if tok_char ch then pos - lenN (take_while tok_char (rev (firstnN pos bs)))
-    else if is_cont ch then
-      (* while start > 0 && is_cont(bytes[start]) { start -= 1 } *)
-      let k := lenN (take_while is_cont (rev (firstnN pos bs))) in
-      if k <? pos then pos - (k + 1) else 0
-    else pos
-  end.
-
-Definition compute_error_range_fixed (index : N) (bs : list N) : N * N :=
-  let fwd :=
-    match skipnN index bs with
-    | [] => None
-    | ch :: _ =>
-      if negb (skipped ch) then
-        let e := scan_token_end_fixed bs index in
-        if index <? e then Some (index, e) else None
-      else None
-    end in
-  match fwd with
-  | Some r => r
-  | None =>
-    match drop_while skipped (rev (firstnN index bs)) with
-    | [] => (index, index)
-    | (_ :: _) as back =>
-      let pos := lenN back - 1 in
-      (scan_token_start_fixed bs pos, pos + 1)
-    end
-  end.
-
-Definition convert_pest_error_fixed (bs : list N) (index : N) : position :=
-  let r := compute_error_range_fixed index bs in
-  let lc := if fst r <? index then linecol_loop (firstnN (fst r) bs) 1 1
-            else pest_line_col bs index in
-  mkPos (fst lc) (snd lc) r (fst r).
-
-(* F: "index line column a b" of the repaired model *)
-Definition err_render_fixed (bs : list N) (index : N) : list N :=
-  render_position (convert_pest_error_fixed bs index).
+  render_position (convert_pest_error bs index).
 
 (* X: convert_pest_error at EVERY character-boundary offset of the text (the driver builds a pest error at each
    offset with pest::error::Error::new_from_pos and calls the public convert_pest_error);
    entries "p index line column a b" separated by commas *)
-Fixpoint sweep_from (conv : list N -> N -> position) (bs suffix : list N) (p : N) : list (list N) :=
+Fixpoint sweep_from (bs suffix : list N) (p : N) : list (list N) :=
   let here := match suffix with
               | [] => true
               | b :: _ => negb (is_cont b)
               end in
-  (if here then [hexN p ++ 32 :: render_position (conv bs p)] else [])
+  (if here then [hexN p ++ 32 :: render_position (convert_pest_error bs p)] else [])
   ++ match suffix with
      | [] => []
-     | _ :: r => sweep_from conv bs r (p + 1)
+     | _ :: r => sweep_from bs r (p + 1)
      end.
 Fixpoint join_comma (l : list (list N)) : list N :=
   match l with
@@ -169,7 +99,6 @@ Fixpoint join_comma (l : list (list N)) : list N :=
   | [x] => x
   | x :: r => x ++ 44 :: join_comma r
   end.
-Definition err_sweep_render (bs : list N) : list N := join_comma (sweep_from convert_pest_error bs bs 0).
-Definition err_sweep_fixed_render (bs : list N) : list N := join_comma (sweep_from convert_pest_error_fixed bs bs 0).
+Definition err_sweep_render (bs : list N) : list N := join_comma (sweep_from bs bs 0).
 
 Definition all_ascii (bs : list N) : bool := forallb (fun b => b <? 128) bs.
